@@ -155,3 +155,10 @@ def expect_raises(mon, clause, exc_types, fn, detail=None, key=None):
         return False
     mon.check(clause, False, {"case": detail, "returned": jsonable(r)}, key)
     return False
+
+
+def rt(s):
+    """An equal string object built at run time (not the interned literal of
+    the source): what a caller gets from a file, a command line or
+    str.lower().  A library that compares strings by identity fails on it."""
+    return "".join(list(s)) if len(s) > 1 else s
